@@ -1083,6 +1083,11 @@ func (c *Conn) Write(b []byte) (int, error) {
 // has not yet completed. See SetDeadline, SetReadDeadline, and
 // SetWriteDeadline.
 func (c *Conn) Read(b []byte) (int, error) {
+	// Once Close has been called no further data is handed out, not even
+	// plaintext that was received earlier and is still buffered.
+	if atomic.LoadInt32(&c.activeCall)&1 != 0 {
+		return 0, net.ErrClosed
+	}
 	if err := c.Handshake(); err != nil {
 		return 0, err
 	}
